@@ -224,6 +224,8 @@ def check_C11(res, ctx):
                           {"ops": ops0, "sums": sums})
         if i < 1:
             res.sample({"df_ops_head": ops0[:8], "n_ops": len(ops0)})
+    from . import fiocheck
+    fiocheck.run(res, ctx, "C11", 12 if ctx.quick else 200, diff_model, rng_for)
     return "geometry: (start offset, length) -> (position, size, next state) for all offsets (thorough) / boundary+random offsets (quick) x " \
            "lengths ending within 8 bytes of the first three block boundaries; files: random single writes and multi-record flushes, " \
            "scan / position reads / sizes / byte sums on both I/O back-ends; non-trivial = at least two records"
@@ -1036,6 +1038,9 @@ def check_C20(res, ctx):
                           {"ops": ops[:k + 1], "code": x, "model": y, "correspondence": "engine line protocol"}, no_input=True)
         if i < 1:
             res.sample({"ops_tail": ops[-30:]})
+    # the file layer under Backup: ResetFileSize on mapped files, then continued reads and appends
+    from . import fiocheck
+    fiocheck.run(res, ctx, "C20", 10 if ctx.quick else 200, diff_model, rng_for, backup_bias=True)
     return "histories (rotated files, batches, merges, adopted merges) with two backups taken during continued writing, followed by writes of 1 byte, " \
            "up to a page and several pages; the copies are opened under other configurations, written to and restarted; the source is restarted; " \
            "all dumps against per-directory reference maps; both I/O types in alternation; the copy must not contain the lock file"
